@@ -1448,6 +1448,12 @@ class AggregateFunction(Function):
         self._filters: list = []
         self._include_filter = False
 
+    def nodes_(self) -> Iterator[NodeT]:
+        yield from super().nodes_()
+        for criterion in self._filters:
+            if hasattr(criterion, "nodes_"):
+                yield from criterion.nodes_()
+
     @builder
     def filter(self, *filters: Any) -> AnalyticFunction:  # type:ignore[return]
         self._include_filter = True
@@ -1480,6 +1486,12 @@ class AnalyticFunction(AggregateFunction):
         self._orderbys: list[tuple] = []
         self._include_filter = False
         self._include_over = False
+
+    def nodes_(self) -> Iterator[NodeT]:
+        yield from super().nodes_()
+        for term in self._partition + [orderby[0] for orderby in self._orderbys]:
+            if hasattr(term, "nodes_"):
+                yield from term.nodes_()
 
     @builder
     def over(self, *terms: Any) -> "Self":  # type:ignore[return]
